@@ -306,10 +306,10 @@ def R4_edge_oriented(ctx):
         ctx.check(cond is None, "run_a_star_edge_oriented:destination-binding-conditional", "the destination branch is inserted only `if !tree.contains_key(dst(e2))`: when the search already labelled dst(e2), backtracking from it follows the search's own branch and the route never traverses the destination edge", c.where())
 
 
-def R5_reorient(ctx):
+def R5_reorient(ctx, rid="C01.R5"):
     """C01.R5 reverse half is re-oriented"""
     F = ctx.F
-    ctx.rule("C01.R5", "reorient_reverse_route consumes the reverse route's edge ids in reversed order prefixed by the forward route's last edge id, re-traverses each consecutive pair forward with a state carried from the previous result (starting from the forward route's last state); single-via chains forward route then re-oriented route", floor=7)
+    ctx.rule(rid, "reorient_reverse_route consumes the reverse route's edge ids in reversed order prefixed by the forward route's last edge id, re-traverses each consecutive pair forward with a state carried from the previous result (starting from the forward route's last state); single-via chains forward route then re-oriented route", floor=7)
     b = F.need(astar.A + "a_star::bidirectional_ops::reorient_reverse_route")
     tm = Terms(b)
     fts = b.calls_to(ET + "::forward_traversal")
